@@ -38,6 +38,8 @@ type Control struct {
 	Old    string // must occur exactly once in the file, else the control is skipped
 	New    string
 	Expect string // rule id expected to report (prefix match on "rule key")
+	// an optional second edit of the same file (both must apply)
+	Old2, New2 string
 }
 
 var registry = map[string]*Property{}
@@ -288,6 +290,14 @@ func runControls(p *Property) map[string]interface{} {
 			continue
 		}
 		variant := strings.Replace(string(data), ctl.Old, ctl.New, 1)
+		if ctl.Old2 != "" {
+			if strings.Count(variant, ctl.Old2) != 1 {
+				results[i].Status = "skipped"
+				results[i].Detail = "second edit site not found exactly once in the current tree"
+				continue
+			}
+			variant = strings.Replace(variant, ctl.Old2, ctl.New2, 1)
+		}
 		vf := filepath.Join(tmp, fmt.Sprintf("v%d.go", i))
 		if strings.HasSuffix(ctl.File, ".s") {
 			vf = filepath.Join(tmp, fmt.Sprintf("v%d.s", i))
